@@ -34,7 +34,7 @@ def r3_guards(ctx):
     ctx.count("k4_guards", stats["guards"])
     mine = [(fn, g, c) for (fn, g, c) in out if fn.file.startswith(VARIATION_FILES)]
     n_bodies = len([f for f in ctx.facts.all_fns if f.file.startswith(VARIATION_FILES) and not f.from_expansion])
-    ctx.floor("C13.R3", "variation-operator bodies analysed", n_bodies, 60)
+    ctx.floor("C13.R3", "variation-operator bodies analysed", n_bodies, 45)
     seen = set()
     for fn, g, c in mine:
         key = (fn.key, g[0], c[1])
@@ -137,7 +137,7 @@ def r4_unordered_samples(ctx):
                                   "gen_range(0..x) with x an element of a choose_multiple(0..len) sample: x can be 0, and sampling the empty range panics", loc=fn.loc(st[3]))
     ctx.count("range_aggregates_in_components", n_ranges)
     ctx.count("sample_derived_ranges", n_samples)
-    ctx.floor("C13.R4", "Range aggregates inspected in component code", n_ranges, 20)
+    ctx.floor("C13.R4", "Range aggregates inspected in component code", n_ranges, 10)
 
 
 def run(ctx):
